@@ -185,7 +185,7 @@ def run_burst_case(case):
     rng = random.Random(case["seed"] * 7919 + 53)
     net = scenario.random_net(rng, allow_small_pipe=False)
     table = case["table"]
-    sc = {"seed": case["seed"], "server": {"block_size": 16, "wait_future_timeout": 5.0, "users": spec_users(table), "user_manager": case.get("manager", "slow")}, "net": net, "fs": {"delay": None}}
+    sc = {"seed": case["seed"], "server": {"block_size": 16, "wait_future_timeout": 5.0, "users": spec_users(table), "user_manager": case.get("manager", "slow"), "user_manager_delays": case.get("manager_delays")}, "net": net, "fs": {"delay": None}}
     viol = []
     info = {}
     world = scenario.setup_world(sc)
@@ -206,13 +206,29 @@ def run_burst_case(case):
             await peer.connect()
             for v, a in case["pre"]:
                 await peer.cmd(f"{v} {a}".strip())
+            pending_xfer = False
+            if case.get("failing_transfer"):
+                # an upload onto a directory, accepted (150) and waiting for its data connection:
+                # it will fail in the backend (451) while the burst below is being handled
+                code = await peer.passive("EPSV")
+                if code == "229":
+                    c150, _ = await peer.cmd("STOR /d")
+                    pending_xfer = c150[:1] == "1"
             lines = [f"{v} {a}".strip() for v, a in case["burst"]]
             for l in lines:
                 peer.note("C", l)
             peer.writer.write("".join(l + "\r\n" for l in lines).encode())
+            if pending_xfer:
+                await asyncio.sleep(case.get("connect_after", 0.0))
+                try:
+                    dr, dw = await peer.data_connect()
+                    dw.close()
+                except OSError:
+                    pass
+                info["failing_transfer"] = True
             replies = []
             try:
-                for _ in lines:
+                for _ in range(len(lines) + (1 if pending_xfer else 0)):
                     replies.append((await peer.reply(60.0))[0])
             except Exception:
                 pass
@@ -257,7 +273,7 @@ def run_burst_case(case):
             "events": world.net.seq,
             "steps": world.loop.steps,
             "outcome": world.outcome,
-            "counters": {"probe.pipelined_login_burst": 1, "probe.user_manager_suspended": st["suspended"], "probe.burst_left_session_authorised": int(bool(info.get("final", (None, False, None))[1]))},
+            "counters": {"probe.pipelined_login_burst": 1, "probe.user_manager_suspended": st["suspended"], "probe.burst_left_session_authorised": int(bool(info.get("final", (None, False, None))[1])), "probe.transfer_failed_during_burst": int(bool(info.get("failing_transfer")))},
             "groups": {"table": {table + "/burst": 1}},
             "violations": viol,
         }
@@ -470,6 +486,15 @@ def main(argv=None):
                 if i % 4 == 3:
                     pre, burst = gen_burst(rnd, t)
                     c = {"kind": "burst", "seed": s, "table": t, "pre": pre, "burst": burst, "manager": rnd.choice(["slow", "digest", "slow", "memory"])}
+                    if pre and pre[-1][0] == "PASS" and rnd.random() < 0.6:
+                        c["failing_transfer"] = True
+                        c["connect_after"] = round(rnd.uniform(0.0, 1.0), 3)
+                        c["manager"] = rnd.choice(["slow", "digest"])
+                        c["manager_delays"] = [0.1, 0.2, 0.3]
+                        prot = [(login, pw) for (tag, login, pw, home) in TABLES[t] if pw]
+                        if len(prot) >= 2 and rnd.random() < 0.6:
+                            (a1, p1), (a2, _p2) = rnd.sample(prot, 2)
+                            c["burst"] = [["USER", a1], ["PASS", p1], ["USER", a2]] + ([["PWD", ""]] if rnd.random() < 0.5 else [])
                 else:
                     c = {"seed": s, "table": t, "ops": gen_history(rnd, t), "manager": rnd.choice(MANAGERS)}
                     known = [login for (tag, login, pw, home) in TABLES[t] if tag != "anon"]
